@@ -18,7 +18,7 @@ BOUNDS = {
                  "window": "4 lead times, all 18 aggregation functions", "through Data": "2x3x2"},
 }
 ASSUMPTIONS = ["values given to an aggregator are finite reals", "lead-time / time grids are strictly ascending (unsorted grids are not in the quantifier)",
-               "float32 rounding of the pre-aggregated array is outside the claim"]
+               "float32 rounding of the pre-aggregated array is outside the claim (the concrete replay compares with relative tolerance 1e-5)"]
 STUBS = ["inputs are in-memory verif.input.Input subclasses"]
 
 
@@ -141,11 +141,46 @@ def h_through_data(T, P):
     return fn
 
 
+def h_two_grids():
+    """-T uses each input's own lead-time grid: two inputs whose grids have the
+    same length but different values (common lead times 0, 6, 12)."""
+    def fn(S):
+        data = load.modules["verif.data"]
+        aggmod = load.modules["verif.aggregator"]
+        f = load.modules["verif.field"]
+        ax = load.modules["verif.axis"]
+        MI = common.input_class()
+        grids = [[0.0, 3.0, 6.0, 12.0], [0.0, 6.0, 9.0, 12.0]]
+        h = [6, 9][S.choose("window", 2)]
+        name = ["sum", "mean"][S.choose("agg", 2)]
+        ins, raw = [], []
+        for k, g in enumerate(grids):
+            fc = S.array("in%d.fcst" % k, (1, 4, 1), nan=False)
+            ob = S.array("in%d.obs" % k, (1, 4, 1), nan=False)
+            raw.append((ob, fc))
+            ins.append(MI("in%d.txt" % k, common.int_array(S, [0]), S.vector(g), common.locations([1]), obs=ob.copy(), fcst=fc.copy()))
+        order = S.choose("order", 2)
+        if order:
+            ins, raw, grids = ins[::-1], raw[::-1], grids[::-1]
+        D = data.Data(ins, dim_agg_length=h, dim_agg_axis=ax.Leadtime(), dim_agg_method=ref.make_aggregator(aggmod, name))
+        S.prove("common-lead-times", [float(x) for x in D.leadtimes] == [0.0, 6.0, 12.0])
+        for k in range(2):
+            got = D.get_scores(f.Fcst(), k, ax.All(), None)
+            g = grids[k]
+            for j, lt in enumerate([0.0, 6.0, 12.0]):
+                members = [raw[k][1][0, i, 0] for i in range(4) if g[i] <= lt and g[i] > lt - h]
+                want = ref.r_agg(S, name, members)
+                S.prove("window-on-the-inputs-own-grid", S.same(got[0, j, 0], want), twin=S.same(got[0, j, 0], want + 1),
+                        detail="input %d/%s/T%d" % (k, name, h))
+    return fn
+
+
 def harnesses(tier):
     thorough = tier == "thorough"
     return [
+        Harness("two_grids", h_two_grids(), "-T with two inputs on different lead-time grids of equal length", rtol=1e-5),
         Harness("aggregators", h_aggregators(4 if thorough else 3, thorough), "every aggregator along every axis"),
-        Harness("window.leadtime", h_window("leadtime", 4 if thorough else 3, thorough), "preaggregate_leadtime"),
-        Harness("window.time", h_window("time", 4 if thorough else 3, thorough), "preaggregate_time"),
-        Harness("through_data", h_through_data(2 if thorough else 1, 2 if thorough else 1), "-T applied to obs, fcst, members and derived fields"),
+        Harness("window.leadtime", h_window("leadtime", 4 if thorough else 3, thorough), "preaggregate_leadtime", rtol=1e-5),
+        Harness("window.time", h_window("time", 4 if thorough else 3, thorough), "preaggregate_time", rtol=1e-5),
+        Harness("through_data", h_through_data(2 if thorough else 1, 2 if thorough else 1), "-T applied to obs, fcst, members and derived fields", rtol=1e-5),
     ]
